@@ -253,7 +253,7 @@ def run(ctx):
     ctx.count('generator_triples', len(triples))
     # ---- matching histories through the real ESME
     hist_cases = []
-    nh = 1500 if ctx.thorough else 250
+    nh = 6000 if ctx.thorough else 250
     for h in range(nh):
         if h % 3 == 0:
             mn, mx, cur = 1, 0x7FFFFFFF, rng.choice([0, 0x7FFFFFFF - 3, 0x7FFFFFFF - 1, 0x7FFFFFFF, 12345])
@@ -297,7 +297,7 @@ def run(ctx):
     #      match a request that is still outstanding - not one already reported as timed out
     from fractions import Fraction
     from harness import C14
-    for j in range(120 if ctx.thorough else 40):
+    for j in range(800 if ctx.thorough else 40):
         ttl = Fraction(rng.choice([1, 2, 15]))
         script = C14.gen_script(rng, rng.randint(6, 14), ttl)
         _obs, hooklog, executed, info = asyncio.run(C14.run_real(script, ttl))
